@@ -51,6 +51,46 @@ fn vtrees_for(nv: usize) -> Vec<VT> {
     }
 }
 
+/// quick tier: the history regimes (recompilation after a compilation under an assignment, look-alike
+/// formulas on one builder) take a rotating quarter / eighth of their cases (a bottom-up CNF compilation
+/// costs about 0.3 ms in this build); the thorough tier takes all
+static LIGHT: std::sync::atomic::AtomicBool = std::sync::atomic::AtomicBool::new(false);
+fn light() -> bool {
+    LIGHT.load(std::sync::atomic::Ordering::Relaxed)
+}
+
+/// formulas one small edit away from `c` that still mention exactly `nv` variables
+pub fn neighbours(c: &[Clause], nv: usize) -> Vec<Vec<Clause>> {
+    let mut out: Vec<Vec<Clause>> = Vec::new();
+    for (i, cl) in c.iter().enumerate() {
+        for k in 0..cl.len() {
+            let mut x = c.to_vec();
+            x[i].remove(k);
+            out.push(x);
+            let mut y = c.to_vec();
+            y[i][k].1 = !y[i][k].1;
+            out.push(y);
+        }
+        for v in 0..nv {
+            for p in [true, false] {
+                if !cl.contains(&(v, p)) {
+                    let mut x = c.to_vec();
+                    x[i].push((v, p));
+                    out.push(x);
+                }
+            }
+        }
+        let mut x = c.to_vec();
+        x.remove(i);
+        out.push(x);
+        let mut y = c.to_vec();
+        y.push(cl.clone());
+        out.push(y);
+    }
+    out.retain(|x| num_vars(x) == nv && x != c);
+    out
+}
+
 /// all checks for one clause list; returns (key, text, replay)
 fn check_cnf(clauses: &[Clause], cn: &mut Cn, with_models: bool) -> Option<(String, String)> {
     let cnf = to_cnf(clauses);
@@ -95,7 +135,7 @@ fn check_cnf(clauses: &[Clause], cn: &mut Cn, with_models: bool) -> Option<(Stri
                 // ask, disturb, ask again: compiling the plain formula once more on the same builder (from
                 // the same object and from an equal formula constructed separately) after a compilation
                 // under an assignment must give the first answer again
-                if !crate::core::disabled("recompile") {
+                if !crate::core::disabled("recompile") && (!light() || (code + cn.assign_compiles as usize / 27) % 4 == 0) {
                     let again = if code % 2 == 0 { guarded(|| b.compile_cnf(&cnf)) } else { guarded(|| b.compile_cnf(&to_cnf(clauses))) };
                     cn.bdd_compiles += 1;
                     match again {
@@ -106,6 +146,26 @@ fn check_cnf(clauses: &[Clause], cn: &mut Cn, with_models: bool) -> Option<(Stri
                         }
                         Err(p) => return Some(("bdd-cnf-panic".into(), format!("order {:?}: compile_cnf after compile_cnf_with_assignments({:?}) panicked: {}", order, a, p))),
                     }
+                }
+            }
+        }
+        // look-alikes on the same builder: every formula one small edit away from this one (a literal removed,
+        // added or flipped, a clause dropped or repeated) is compiled next, then this one again - a builder
+        // that remembers compilations under too coarse a key confuses exactly these
+        if with_models && clauses.len() <= 2 && !crate::core::disabled("lookalike") && (!light() || (cn.assign_compiles / 27) % 8 == 0 || nv <= 2) {
+            for other in crate::props::c05::neighbours(clauses, nv) {
+                let fo = tt::of_cnf(&other, nv);
+                cn.bdd_compiles += 2;
+                match guarded(|| (b.compile_cnf(&to_cnf(&other)), b.compile_cnf(&cnf))) {
+                    Ok((ro, ra)) => {
+                        if bdd_tt(ro, nv) != fo {
+                            return Some(("bdd-cnf".into(), format!("order {:?}: on the builder that had compiled this formula, compile_cnf of {} has models {:#x}, that CNF has {:#x}", order, cnf_json(&other), bdd_tt(ro, nv), fo)));
+                        }
+                        if bdd_tt(ra, nv) != f || ra != r {
+                            return Some(("bdd-cnf".into(), format!("order {:?}: compiled again after {} the formula has models {:#x} (same diagram as before: {}), the CNF {:#x}", order, cnf_json(&other), bdd_tt(ra, nv), ra == r, f)));
+                        }
+                    }
+                    Err(p) => return Some(("bdd-cnf-panic".into(), format!("order {:?}: compiling {} after this formula panicked: {}", order, cnf_json(&other), p))),
                 }
             }
         }
@@ -381,6 +441,7 @@ fn check_plan(p: &Pl, cn: &mut Cn) -> Option<(String, String)> {
 }
 
 pub fn run(ctx: &Ctx) -> Report {
+    LIGHT.store(ctx.tier == Tier::Quick, std::sync::atomic::Ordering::Relaxed);
     let mut rep = Report::new(
         "CNFs as clause sequences (4^n clause types per clause: absent/positive/negative/both; empty formula, empty/unit/tautological/duplicate clauses; n = 2 clauses with repeated literals; a > 20-clause family) x every variable order (BDD) x every vtree and every dtree-derived vtree (SDD) x all 3^n partial models (compile-with-assignments == compile-then-condition); every expression tree with <= k connectives over 3 variables x all orders x all vtrees; dtree plans for every elimination order and all small plan trees with constants; models compared with direct clause/expression evaluation; distinct = (input, configuration); non-trivial = input neither valid nor unsatisfiable",
     );
